@@ -66,7 +66,10 @@ PROPS = {
 
 
 PROPS['C20'] = {
-    'theorems': ['RQ.C20_phase1', 'RQ.C20_applyModify', 'RQ.C20_file'],
+    'theorems': ['RQ.C20_phase1', 'RQ.C20_applyModify', 'RQ.C20_file',
+                 'RQ.Fuzz.C20_driver_on_disk', 'RQ.Fuzz.C20_driver_same_world', 'RQ.Fuzz.C20_driver_outsidePc',
+                 'RQ.Fuzz.C20_specRun', 'RQ.Fuzz.C20_pushSpec', 'RQ.Fuzz.C20_push'],
+    'extra_modules': ['RQ.Props.C20Disk'],
     'jobs': [{'quick': ['fuzzpair', 'seed={seed}', 'n=40000'],
               'thorough': ['fuzzpair', 'seed={seed}', 'n=1000000', 'maxlen=12', 'hunks=4']}],
     'nontrivial': lambda l: 'A(' in l.split('|=>|')[-1].split('|')[0] and 'F(' not in l.split('|=>|')[-1].split('|')[0],
@@ -328,7 +331,9 @@ PROPS['C09'] = {
     'theorems': ['RQ.Abs.C09_applyRange_append', 'RQ.Abs.C09_failed_is_prefix', 'RQ.Abs.applyRange_success_no_rej', 'RQ.Abs.C20_series',
                  'RQ.Compose.C09_oracle_composes', 'RQ.Compose.C09_refused_together', 'RQ.Compose.C09_exit_composes',
                  'RQ.Compose.C09_success_iff', 'RQ.Compose.C09_failing_first_push', 'RQ.Compose.C09_plan_composes',
-                 'RQ.Compose.C09_pushSpec_composes', 'RQ.Compose.C09_hash_name_roundtrip', 'RQ.Compose.C09_disk_composes_of_bridge'],
+                 'RQ.Compose.C09_pushSpec_composes', 'RQ.Compose.C09_hash_name_roundtrip', 'RQ.Compose.C09_disk_composes_of_bridge',
+                 'RQ.Compose.C09_bridge', 'RQ.Compose.C09_disk_composes', "RQ.Compose.C09_disk_composes'", 'RQ.Compose.C09_driver_keeps_tight'],
+    'extra_modules': ['RQ.Props.C09Disk'],
     'verdict': 'SPEC',
     'jobs': push_jobs(['inv=4', 'patches=5'], ['inv=4', 'patches=6']),
     'nontrivial': lambda l: l.split('|=>|')[-1].count('exit=') > 1,
